@@ -2,7 +2,7 @@
 
 use crate::batch::{CheckSpec, Tier};
 use crate::exec::{run_case, Case, CaseResult, Engine};
-use crate::gen::{gen_conc, gen_hist, ConcProfile, Profile, QUICK, THOROUGH};
+use crate::gen::{gen_conc, gen_hist, ConcProfile, Profile, BASE_QUICK, BASE_THOROUGH, QUICK, THOROUGH};
 use crate::rng::Rng;
 use crate::sched::{SchedSpec, Strategy};
 use serde_json::json;
@@ -25,6 +25,8 @@ pub fn exec_case(case: &Case) -> CaseResult {
     match case.engine {
         Engine::Hist => run_case(case, crate::hist::body),
         Engine::Conc => exec_conc(case),
+        Engine::Crash => run_case(case, crate::crash::body),
+        Engine::LogSim => run_case(case, crate::logsim::body),
         _ => unimplemented!("engine {:?}", case.engine),
     }
 }
@@ -55,7 +57,7 @@ fn conc_case(run_seed: u64, tier: Tier, profile: ConcProfile) -> Case {
     let (plan, params) = gen_conc(&mut rng, profile, tier == Tier::Thorough);
     let est = (plan.op_count() as u32) * 40;
     let sched = gen_strategy(&mut rng.fork("sched"), est, true);
-    Case { engine: Engine::Conc, run_seed, plan, sched, schedule: None, fault: None, params, image: None, max_steps: Some(2_000_000) }
+    Case { engine: Engine::Conc, run_seed, plan, sched, schedule: None, fault: None, params, image: None, max_steps: Some(2_000_000), log_plan: None }
 }
 
 fn conc_spec(prop: &'static str, profile: ConcProfile, rule: &'static str, probes: &'static [&'static str], runs: (u64, u64)) -> CheckSpec {
@@ -73,6 +75,7 @@ fn conc_spec(prop: &'static str, profile: ConcProfile, rule: &'static str, probe
         wall_quick: 60.0,
         wall_thorough: 1200.0,
         shrink_plan: true,
+        narrow: None,
         exhaustive: false,
         extra: json!({"engine": "conc: 2-5 client tasks + the real background compaction thread on SimFs under SimScheduler; history stamped with the global event sequence number"}),
     }
@@ -84,7 +87,7 @@ fn hist_case(run_seed: u64, tier: Tier, profile: Profile) -> Case {
     let plan = gen_hist(&mut rng, profile, size);
     let est = (plan.op_count() as u32) * 60;
     let sched = gen_strategy(&mut rng.fork("sched"), est, false);
-    Case { engine: Engine::Hist, run_seed, plan, sched, schedule: None, fault: None, params: BTreeMap::new(), image: None, max_steps: None }
+    Case { engine: Engine::Hist, run_seed, plan, sched, schedule: None, fault: None, params: BTreeMap::new(), image: None, max_steps: None, log_plan: None }
 }
 
 const HIST_ASSUMPTIONS: &[&str] = &[
@@ -109,8 +112,96 @@ fn hist_spec(prop: &'static str, profile: Profile, rule: &'static str, probes: &
         wall_quick: 60.0,
         wall_thorough: 1200.0,
         shrink_plan: true,
+        narrow: None,
         exhaustive: false,
         extra: json!({"engine": "hist: 1 client task + the real background compaction thread on SimFs under SimScheduler"}),
+    }
+}
+
+fn crash_case(run_seed: u64, tier: Tier, torn: bool) -> Case {
+    let mut rng = Rng::new(run_seed);
+    let size = if tier == Tier::Quick { BASE_QUICK } else { BASE_THOROUGH };
+    let plan = gen_hist(&mut rng, Profile::Base, size);
+    let est = (plan.op_count() as u32) * 60;
+    let mut srng = rng.fork("sched");
+    // base runs mostly use low-preemption schedules: the fault space here is the crash point
+    let sched = if srng.chance(1, 2) { SchedSpec { strategy: Strategy::Sticky { q_permille: 950 }, seed: srng.next_u64() } } else { gen_strategy(&mut srng, est, false) };
+    let mut params = BTreeMap::new();
+    if torn {
+        params.insert("torn".to_string(), 1);
+    }
+    params.insert("max_points".to_string(), if tier == Tier::Quick { 48 } else { 100_000 });
+    params.insert("clean_close".to_string(), (rng.fork("close").below(2)) as i64);
+    Case { engine: Engine::Crash, run_seed, plan, sched, schedule: None, fault: None, params, image: None, max_steps: Some(20_000_000), log_plan: None }
+}
+
+fn crash_spec(prop: &'static str, torn: bool, rule: &'static str, probes: &'static [&'static str]) -> CheckSpec {
+    CheckSpec {
+        prop,
+        level: "fault_enumeration",
+        rule,
+        assumptions: vec![
+            "crash model = process death between two filesystem operations: the durable state is exactly the effect of a prefix of the mutating-operation log (RainDB never calls fsync, and no listed property requires power-loss durability)".into(),
+            "fault positions are enumerated per explored base execution (all prefixes in the thorough tier; a biased sample of 48 in the quick tier); base executions themselves are sampled by seed".into(),
+            "single writer in the base run, so at most one batch is in flight at a crash point".into(),
+            "SimFs models POSIX file semantics as used by fs_disk.rs".into(),
+        ],
+        expected_probes: probes,
+        gen: Box::new(move |rs, _i, tier| crash_case(rs, tier, torn)),
+        exec: Box::new(exec_case),
+        evals: Box::new(|r| r.stats.extra.get("crash_points_checked").copied().unwrap_or(0)),
+        runs_quick: 600,
+        runs_thorough: 20_000,
+        wall_quick: 70.0,
+        wall_thorough: 1500.0,
+        shrink_plan: false,
+        narrow: Some(Box::new(|case, f| {
+            let p = f.op_index?;
+            let mut c = case.clone();
+            c.params.insert("crash_at".to_string(), p as i64);
+            Some(c)
+        })),
+        exhaustive: false,
+        extra: json!({"engine": "crash: recorded single-writer base run (real DB + background thread on SimFs), then one recovery simulation per crash point on the materialised image"}),
+    }
+}
+
+fn log_spec() -> CheckSpec {
+    CheckSpec {
+        prop: "C12",
+        level: "fault_enumeration",
+        rule: "one evaluation = one read of a log file image through LogReader: the complete file, or the file cut off at one byte offset. Logs are written through LogWriter on SimFs by 1-3 successive writers (clean re-opening in append mode, or a writer that stops between two filesystem writes of a fragmented record followed by a new writer appending more records). The first 3 x |grid| runs enumerate a seed-independent boundary grid completely: start offset in the block in {0, 32754..32767} x record length in {0, 1, 32761, 32768, 65528, 65536, 65544, 100000} plus every length leaving 0..8 bytes in the block, each as (single writer | clean re-open before the record | writer dies inside the record); remaining runs draw record-length sequences by seed. Truncation offsets: every byte for logs < 1.5 KB, otherwise every byte within +-9 of each fragment/record/block boundary plus sampled offsets. Oracle: the reader returns exactly the complete records, byte for byte and in order (records that end at or before the cut; all records finished before a writer stopped plus every record appended by later writers), never anything else. distinct_nontrivial = distinct (writers, records, blocks, tail position, unfinished-record) shapes.",
+        assumptions: vec![
+            "a writer 'stopping between two fragments' is modelled by truncating the file at the boundary between two of its filesystem writes (one write per fragment, one per zero trailer); a fragment torn in the middle followed by appends is C16's case".into(),
+            "LogWriter/LogReader run single-threaded; the simulation content is the storage faults and writer restarts, not scheduling".into(),
+        ],
+        expected_probes: &["record_with_first_middle_last", "writer_died_between_fragments", "writer_reopened_in_append_mode", "truncation_enumerated"],
+        gen: Box::new(|rs, i, tier| {
+            let g = crate::logsim::grid().len() * 3;
+            let plan = if (i as usize) < g { crate::logsim::grid_plan(i as usize) } else { crate::logsim::random_plan(&mut Rng::new(rs), tier == Tier::Thorough) };
+            Case {
+                engine: Engine::LogSim,
+                run_seed: rs,
+                plan: crate::plan::Plan { keys: vec![], opens: vec![], ops: vec![], clients: vec![], tail: vec![] },
+                sched: SchedSpec { strategy: Strategy::RoundRobin, seed: rs },
+                schedule: None,
+                fault: None,
+                params: BTreeMap::new(),
+                image: None,
+                max_steps: Some(50_000_000),
+                log_plan: Some(plan),
+            }
+        }),
+        exec: Box::new(exec_case),
+        evals: Box::new(|r| r.stats.extra.get("log_evaluations").copied().unwrap_or(0)),
+        runs_quick: 4000,
+        runs_thorough: 200_000,
+        wall_quick: 60.0,
+        wall_thorough: 1200.0,
+        shrink_plan: false,
+        narrow: None,
+        exhaustive: false,
+        extra: json!({"engine": "logsim: real LogWriter/LogReader (via verif_api) on SimFs", "grid_cells": crate::logsim::grid().len(), "grid_runs": crate::logsim::grid().len() * 3, "exhaustive_note": "the boundary grid x {single writer, clean re-open, writer death} is enumerated completely whenever evaluations cover at least grid_runs runs (always true for both tiers); record-length sequences beyond the grid are sampled"}),
     }
 }
 
@@ -125,12 +216,28 @@ fn mixed(mut spec: CheckSpec, variants: Vec<(u32, Variant)>) -> CheckSpec {
                 return match v {
                     Variant::Hist(p) => hist_case(rs, tier, *p),
                     Variant::Conc(p) => conc_case(rs, tier, *p),
+                    Variant::Crash => {
+                        let mut c = crash_case(rs, tier, false);
+                        // inside a mixed check a crash run is one of many: keep it short
+                        c.params.insert("max_points".to_string(), if tier == Tier::Quick { 24 } else { 400 });
+                        c
+                    }
                 };
             }
             x -= *w;
         }
         unreachable!()
     });
+    spec.evals = Box::new(|r| r.stats.extra.get("crash_points_checked").copied().unwrap_or(1).max(1));
+    spec.narrow = Some(Box::new(|case, f| {
+        if case.engine != Engine::Crash {
+            return None;
+        }
+        let p = f.op_index?;
+        let mut c = case.clone();
+        c.params.insert("crash_at".to_string(), p as i64);
+        Some(c)
+    }));
     spec.extra = json!({"engines": "mix of hist (1 client + background thread) and conc (2-5 clients + background thread) runs on SimFs under SimScheduler; see rule"});
     spec
 }
@@ -139,6 +246,8 @@ fn mixed(mut spec: CheckSpec, variants: Vec<(u32, Variant)>) -> CheckSpec {
 enum Variant {
     Hist(Profile),
     Conc(ConcProfile),
+    /// recorded base run + recovery simulation per crash point (C10/C11 on recovered images)
+    Crash,
 }
 
 pub fn spec_for(prop: &str) -> Option<CheckSpec> {
@@ -153,14 +262,28 @@ pub fn spec_for(prop: &str) -> Option<CheckSpec> {
         "C03" => mixed(hist_spec("C03", Profile::C03, "60% hist / 40% conc. conc clause: reader tasks take a snapshot or iterator, dump it immediately and dump it again later (and compare get with scan at the snapshot) while writer tasks keep rotating memtables, flushing and compacting; table-cache capacity 2 in most runs forces a parked reader to re-open files; first and later dumps must be equal and no read may fail. hist clause: one evaluation = one simulated single-client history in which snapshots and iterators are taken at arbitrary points, several live at once, and are re-read (get of every universe key, full forward and backward scan, get/scan agreement) after later write bursts, flushes, manual and background compactions; oracle = frozen BTreeMap clone taken at creation. distinct_nontrivial = distinct coverage signatures among runs where tables were written and read back.", &["l0_ge4_over_l1_ge2"], (6000, 400_000)), vec![(60, Variant::Hist(Profile::C03)), (40, Variant::Conc(ConcProfile::C03))]),
         "C04" => hist_spec("C04", Profile::C04, "one evaluation = one simulated history that builds an LSM shape under scheduler control while up to 3 iterators (latest or at a snapshot) are driven by random cursor programs over {seek(universe key or neighbour), seek_to_first, seek_to_last, next, prev} with direction reversals; after every step is_valid()/current() must equal a model cursor over the sorted visible pairs; iterators stay open across later writes, flushes and compactions. The cursor program is input generation; the simulation content is the layout under the iterator (produced by the background thread under scheduler control) and iterators outliving compaction and file deletion.", &["l0_ge4_over_l1_ge2"], (6000, 400_000)),
         "C07" => mixed(hist_spec("C07", Profile::C07, "70% hist / 30% conc. conc clause: after concurrent writers finished (no quiesce), 1-2 reader tasks dump the database forwards/backwards repeatedly while the main task runs flush / compact_range and the background thread compacts; every dump must equal the state captured before. hist clause: one evaluation = one simulated history in which every flush, compact_range(range incl. open ends, empty, reversed) and quiesce is bracketed by full dumps at the latest state and at each live snapshot; dump_before == dump_after (and == model) is required. distinct_nontrivial = distinct coverage signatures among runs where tables were written and read back.", &["l0_ge4_over_l1_ge2", "multi_file_level_ge2"], (6000, 400_000)), vec![(70, Variant::Hist(Profile::C07)), (30, Variant::Conc(ConcProfile::C07))]),
-        "C10" => hist_spec("C10", Profile::C10, "one evaluation = one simulated history; after the first open, every reopen, every CheckAll and at the end the database is quiesced and the structured shape (verif_shape) is checked: per level >= 1 files sorted and pairwise disjoint in internal-key order, smallest <= largest, no file number twice, and every file's bounds equal its first/last stored entry (table read back through verif_api::table_entries); cross-checked against NumFilesAtLevel and SSTables descriptors.", &["l0_ge4_over_l1_ge2", "multi_file_level_ge2"], (6000, 400_000)),
-        "C11" => mixed(hist_spec("C11", Profile::C11, "60% hist / 40% conc. conc clause: reader tasks hold iterators (pinned table set known from verif_shape before/after creation; unknown pins counted as pin_unknown) while writers flush and compact with table-cache capacity 2; a remove of a pinned table in the SimFs log during the iterator's lifetime, or any read failing with NotFound, is a violation. hist clause: one evaluation = one simulated history; the directory listing of SimFs is compared with {CURRENT, LOCK, current manifest, active WAL, tables of the current version} right after every successful open and at quiescent points where no iterator is alive and one reclamation opportunity (flush/compaction end) has passed since the last iterator release; files pending between a release and the next opportunity are counted as lazy_pending_files, not violations; any read failing with NotFound is a violation.", &["l0_ge4_over_l1_ge2"], (6000, 400_000)), vec![(60, Variant::Hist(Profile::C11)), (40, Variant::Conc(ConcProfile::C11))]),
+        "C10" => mixed(hist_spec("C10", Profile::C10, "80% hist / 20% crash-image runs (one evaluation per crash point: the shape oracle runs on every recovered image right after open). hist clause: one evaluation = one simulated history; after the first open, every reopen, every CheckAll and at the end the database is quiesced and the structured shape (verif_shape) is checked: per level >= 1 files sorted and pairwise disjoint in internal-key order, smallest <= largest, no file number twice, and every file's bounds equal its first/last stored entry (table read back through verif_api::table_entries); cross-checked against NumFilesAtLevel and SSTables descriptors.", &["l0_ge4_over_l1_ge2", "multi_file_level_ge2"], (6000, 400_000)), vec![(80, Variant::Hist(Profile::C10)), (20, Variant::Crash)]),
+        "C11" => mixed(hist_spec("C11", Profile::C11, "50% hist / 30% conc / 20% crash-image runs (one evaluation per crash point: the directory of every recovered image must equal the needed set right after open - orphan tables, half-written temp files and superseded manifests are reclaimed - and recovery must never fail with missing files). conc clause: reader tasks hold iterators (pinned table set known from verif_shape before/after creation; unknown pins counted as pin_unknown) while writers flush and compact with table-cache capacity 2; a remove of a pinned table in the SimFs log during the iterator's lifetime, or any read failing with NotFound, is a violation. hist clause: one evaluation = one simulated history; the directory listing of SimFs is compared with {CURRENT, LOCK, current manifest, active WAL, tables of the current version} right after every successful open and at quiescent points where no iterator is alive and one reclamation opportunity (flush/compaction end) has passed since the last iterator release; files pending between a release and the next opportunity are counted as lazy_pending_files, not violations; any read failing with NotFound is a violation.", &["l0_ge4_over_l1_ge2"], (6000, 400_000)), vec![(50, Variant::Hist(Profile::C11)), (30, Variant::Conc(ConcProfile::C11)), (20, Variant::Crash)]),
         "C09" => mixed(
             hist_spec("C09", Profile::C09, "one evaluation = one simulated run, fault-free filesystem: 25% single-client histories incl. every descriptor kind, 35% concurrent runs with writers, readers, compact_range, every descriptor kind (incl. Stats), snapshot take/release, flush, and close while background work may still be in flight, 40% the concurrent workloads of C05/C03/C11/C06. Violations: shuttle reports a deadlock (all live tasks blocked) or a re-entrant lock acquisition; any task of an open database panics (the orphan worker of a failed open is exempt); a background error is recorded; a run exceeds 2M scheduler steps and still does under a fair round-robin schedule (otherwise counted as unfair_schedule_timeouts).", &["freeze_fired"], (8000, 600_000)),
             vec![(25, Variant::Hist(Profile::C09)), (35, Variant::Conc(ConcProfile::C09)), (10, Variant::Conc(ConcProfile::C05)), (10, Variant::Conc(ConcProfile::C03)), (10, Variant::Conc(ConcProfile::C11)), (10, Variant::Conc(ConcProfile::C06))],
         ),
         "C05" => conc_spec("C05", ConcProfile::C05, "one evaluation = one simulated concurrent run: 2-5 client tasks x 5-60 operations over 2-8 keys (unique value tags) with 512 B-4 KiB memtables so that rotation, flush and compaction run continuously; schedulers Random / Sticky / PCT(depth 1-4) / Freeze (parks a task at an unlocked_fair exit, filesystem call or hook until the others are blocked or a step budget expires). The invoke/return history (global event sequence numbers) is checked per key against a register model by a memoised WGL search, with the final quiesced state as a last read; phantom reads, reads from the future and write errors are violations. Histories above the checker budget are counted as unchecked, never as violations.", &["freeze_fired", "group_commit_merged_writers"], (8000, 600_000)),
         "C06" => conc_spec("C06", ConcProfile::C06, "one evaluation = one simulated concurrent run in which 1-3 writer tasks each own a row group of 2-8 keys and repeatedly apply one batch writing the same fresh tag to every key of the group (sometimes deleting all, sometimes padded beyond the memtable budget) while 1-2 reader tasks take snapshots / iterators and read whole groups; H4 puts a scheduling point after every single memtable insert, SimFs before and after the WAL append. Oracle: in every snapshot-consistent read all keys of a group carry the same tag.", &["freeze_fired"], (8000, 600_000)),
+        "C12" => log_spec(),
+
+        "C02" => crash_spec(
+            "C02",
+            false,
+            "one evaluation = one crash point: a prefix of the totally ordered log of mutating filesystem operations (create/truncate, write, rename, remove, mkdir) of a recorded base run (4-60 ops quick, -150 thorough: puts, deletes, batches, flushes, compact_range, clean reopen with new options; closed cleanly or left open). For each point the image is materialised and a recovery simulation runs: DB::open (reuse_log_files and sizes drawn per point) must succeed; full scan + get of every key must equal the model of all writes returned before the crash point, plus optionally - as a whole - the batch that was invoked but not returned; then 2-5 further writes, clean close, reopen (possibly flipped reuse_log_files) and the scan must equal model + new writes; with probability 1/6 the recovery run itself is crashed at a seeded prefix of its own log and checked recursively (depth <= 2). distinct_nontrivial = distinct coverage signatures of base runs (LSM shapes of recovered images, set of (operation kind, file class) pairs preceding the crash points).",
+            &["crash@write:wal", "crash@write:table", "crash@write:manifest", "crash@rename:current", "crash@create:temp", "crash@remove:wal", "crash@remove:table", "crash_inside_recovery"],
+        ),
+        "C16" => crash_spec(
+            "C16",
+            true,
+            "one evaluation = one torn write: for a write operation of a recorded base run (every write of non-table files, sampled table writes; all in the thorough tier) the image is the log prefix before it plus 1 byte / half / all-but-one / two seeded lengths of its payload. Recovery simulation as for C02 with both reuse_log_files values, 3-11 further acknowledged writes of 10 B-40 KB (some stay in the torn tail's 32 KiB block, some cross it), clean close, reopen: the first open must succeed and show everything acknowledged before the torn write (the torn batch absent or whole); after the second open every write acknowledged after recovery must be present.",
+            &["crash@torn:write:wal", "crash@torn:write:manifest", "crash@torn:write:table", "crash@torn:write:temp"],
+        ),
         _ => return None,
     })
 }
